@@ -3,7 +3,8 @@
     discrete-log representation cannot express): every masked atom of a customer message is an injective function of
     a draw that is fresh to that message, so for any previously seen value at most ONE value of the fresh draw
     collides; and a response scalar is compatible with every message value for exactly one commitment scalar. *)
-From ZK Require Import Model.Field Model.Zq Model.QBls Model.Pedersen Model.PS Model.Customer Proofs.CustomerProofs.
+From ZK Require Import Model.Field Model.Zq Model.QBls Model.Pedersen Model.PS Model.Schnorr Model.Range Model.Abacus Model.Customer
+  Proofs.CustomerProofs Proofs.MaskingProofs.
 Local Open Scope fld_scope.
 
 Theorem C14_randomize_collision_unique : forall (K : Fld) (sig : sigt K) (r v : K), fst sig <> f0 ->
@@ -31,6 +32,79 @@ Proof. exact blind_signature_injective_in_randomiser. Qed.
 Theorem C14_unrandomised_signature_is_reused : forall (K : Fld) (sig : sigt K), randomize f1 sig = sig.
 Proof. exact unrandomised_signature_is_reused. Qed.
 
+(** ** per message constructor (Proofs/MaskingProofs.v): every atom is affine, with a non-zero coefficient, in a value drawn
+    for that message *)
+Theorem C14_affine_collision_unique : forall (K : Fld) (a b v x : K), a <> f0 -> a * x + b = v -> x = (v - b) / a.
+Proof. exact affine_collision_unique. Qed.
+
+Theorem C14_proof_commitment_masked : forall (K : Fld) (h : K) gs ms kbf ks c bf bf', h <> f0 ->
+  cp_C (cp_prove h gs ms bf kbf ks c) = cp_C (cp_prove h gs ms bf' kbf ks c) -> bf = bf'.
+Proof. exact cp_C_masked. Qed.
+Theorem C14_proof_scalar_commitment_masked : forall (K : Fld) (h : K) gs ms bf ks c kbf kbf', h <> f0 ->
+  cp_T (cp_prove h gs ms bf kbf ks c) = cp_T (cp_prove h gs ms bf kbf' ks c) -> kbf = kbf'.
+Proof. exact cp_T_masked. Qed.
+Theorem C14_proof_blinding_response_masked : forall (K : Fld) (h : K) gs ms bf ks c kbf kbf',
+  cp_rbf (cp_prove h gs ms bf kbf ks c) = cp_rbf (cp_prove h gs ms bf kbf' ks c) -> kbf = kbf'.
+Proof. exact cp_rbf_masked. Qed.
+Theorem C14_proof_response_masked : forall (K : Fld) (h : K) gs ms bf kbf ks c j k k', (j < length ms)%nat -> length ks = length ms ->
+  nth j (cp_rs (cp_prove h gs ms bf kbf (upd j k ks) c)) f0 = nth j (cp_rs (cp_prove h gs ms bf kbf (upd j k' ks) c)) f0 -> k = k'.
+Proof. exact cp_response_masked. Qed.
+Theorem C14_response_perfectly_hiding : forall (K : Fld) (c m m' k : K), exists! k', c * m + k = c * m' + k'.
+Proof. exact response_perfectly_hiding. Qed.
+
+Theorem C14_shown_sigma1_masked : forall (K : Fld) (s : sigt K) bf r r', fst s <> f0 ->
+  fst (blind_and_randomize r bf s) = fst (blind_and_randomize r' bf s) -> r = r'.
+Proof. exact shown_sigma1_masked. Qed.
+Theorem C14_shown_sigma2_masked : forall (K : Fld) (s : sigt K) r bf bf', fst s <> f0 -> r <> f0 ->
+  snd (blind_and_randomize r bf s) = snd (blind_and_randomize r bf' s) -> bf = bf'.
+Proof. exact shown_sigma2_masked. Qed.
+Theorem C14_shown_signature_differs_from_issued : forall (K : Fld) (s : sigt K) r bf, fst s <> f0 -> r <> f1 ->
+  fst (blind_and_randomize r bf s) <> fst s.
+Proof. exact shown_signature_differs_from_issued. Qed.
+
+Theorem C14_closing_sigma1_masked : forall (K : Fld) (cs : sigt K) rho rho', fst cs <> f0 ->
+  fst (randomize rho cs) = fst (randomize rho' cs) -> rho = rho'.
+Proof. exact closing_sigma1_masked. Qed.
+Theorem C14_closing_sigma2_masked : forall (K : Fld) (cs : sigt K) rho rho', snd cs <> f0 ->
+  snd (randomize rho cs) = snd (randomize rho' cs) -> rho = rho'.
+Proof. exact closing_sigma2_masked. Qed.
+Theorem C14_closing_signature_differs_from_issued : forall (K : Fld) (cs : sigt K) rho, fst cs <> f0 -> rho <> f1 ->
+  fst (randomize rho cs) <> fst cs.
+Proof. exact closing_signature_differs_from_issued. Qed.
+(** every stage's close re-randomises the stored signature (Inactive, Ready, Started, Locked alike) *)
+Theorem C14_every_close_rerandomises : forall (K : Fld) (st : stage K) rho sig s, close_of st rho = Some (sig, s) ->
+  exists stored, closing_view st = Some (stored, s) /\ sig = randomize rho stored.
+Proof. exact every_close_rerandomises. Qed.
+
+(** the establish and pay messages consist of revealed commitment scalars that are draws of the message, and of commitment /
+    signature proofs over draws of the message - so the lemmas above cover every atom *)
+Theorem C14_establish_message_structure : forall (K : Fld) (close_tag : K) (pk : pkey K) cid nonce lock cb mb bfs kbfs ks bfc kbfc kclose c,
+  let p := establish_prove_with close_tag pk cid nonce lock cb mb bfs kbfs ks bfc kbfc kclose c in
+  e_kcid p = nth 0 ks f0 /\ e_kclose p = kclose /\ e_kcb p = nth 3 ks f0 /\ e_kmb p = nth 4 ks f0 /\
+  e_sp p = req_prove pk (state_msg cid nonce lock cb mb) bfs kbfs ks c /\
+  e_csp p = req_prove pk (close_msg close_tag cid lock cb mb) bfc kbfc
+              [nth 0 ks f0; kclose; nth 2 ks f0; nth 3 ks f0; nth 4 ks f0] c.
+Proof. exact establish_revealed_scalars_are_fresh_draws. Qed.
+
+Theorem C14_pay_message_structure : forall (K : Fld) (close_tag : K) (pk : pkey K) rp hr gr tok old cbz mbz new d c p,
+  pay_prove_with close_tag pk rp hr gr tok old cbz mbz new d c = Some p ->
+  p_knonce p = d_knonce d /\ p_kclose p = d_kclose d /\
+  sp_sig (p_tok p) = blind_and_randomize (d_rt d) (d_bft d) tok /\
+  (exists kst, sp_cp (p_tok p) = cp_prove (pk_g2 pk) (pk_y2s pk) old (d_bft d) (d_kbft d) kst c) /\
+  p_rev p = cp_prove hr [gr] [nth 2 old f0] (d_bfr d) (d_kbfr d) [d_krev d] c /\
+  (exists kss, p_sp p = cp_prove (pk_g1 pk) (pk_y1s pk) new (d_bfs d) (d_kbfs d) kss c) /\
+  (exists ksc newc, p_csp p = cp_prove (pk_g1 pk) (pk_y1s pk) newc (d_bfc d) (d_kbfc d) ksc c).
+Proof. exact pay_message_structure. Qed.
+
+Theorem C14_range_digit_proofs_structure : forall (K : Fld) (rp : rparams K) v ds c ps, range_prove rp v ds c = Some ps ->
+  ps = map2 (fun dg rd => sig_prove (rp_pk rp) [of_Z dg] (nth (Z.to_nat dg) (rp_sigs rp) (f0, f0))
+                                    (rd_bf rd) (rd_kbf rd) [rd_k rd] (rd_r rd) c) (digits v) ds.
+Proof. exact range_digit_proofs_structure. Qed.
+
+(** non-vacuity: concrete collision - the closing randomiser 1 shows the issued signature again, 2 does not *)
+Example C14_nonvacuous : randomize (fq 1) (fq 5, fq 7) = (fq 5, fq 7) /\ fst (randomize (fq 2) (fq 5, fq 7)) <> fq 5.
+Proof. split; [vm_compute; reflexivity|]. intro E. apply (f_equal (@val q_bls)) in E. vm_compute in E. discriminate. Qed.
+
 Print Assumptions C14_randomize_collision_unique.
 Print Assumptions C14_rerandomised_signature_injective_in_draw.
 Print Assumptions C14_commitment_injective_in_blinding_factor.
@@ -38,3 +112,20 @@ Print Assumptions C14_response_injective_in_commitment_scalar.
 Print Assumptions C14_response_compatible_with_every_message.
 Print Assumptions C14_blind_signature_injective_in_randomiser.
 Print Assumptions C14_unrandomised_signature_is_reused.
+Print Assumptions C14_affine_collision_unique.
+Print Assumptions C14_proof_commitment_masked.
+Print Assumptions C14_proof_scalar_commitment_masked.
+Print Assumptions C14_proof_blinding_response_masked.
+Print Assumptions C14_proof_response_masked.
+Print Assumptions C14_response_perfectly_hiding.
+Print Assumptions C14_shown_sigma1_masked.
+Print Assumptions C14_shown_sigma2_masked.
+Print Assumptions C14_shown_signature_differs_from_issued.
+Print Assumptions C14_closing_sigma1_masked.
+Print Assumptions C14_closing_sigma2_masked.
+Print Assumptions C14_closing_signature_differs_from_issued.
+Print Assumptions C14_every_close_rerandomises.
+Print Assumptions C14_establish_message_structure.
+Print Assumptions C14_pay_message_structure.
+Print Assumptions C14_range_digit_proofs_structure.
+Print Assumptions C14_nonvacuous.
